@@ -9,6 +9,12 @@ import contextlib
 import numpy as np
 
 
+def oracle_ll(model):
+    """The user's likelihood without the harness guards (oracle evaluations must not
+    count as evaluations of the run)."""
+    return getattr(model, "_verif_orig_log_likelihood", model.log_likelihood)
+
+
 def rows(a):
     """Multiset of rows of a structured array as bytes."""
     out = {}
@@ -22,7 +28,7 @@ def model_values(model, x, tol=1e-12):
     """(ok_prior, ok_like, detail): stored logP/logL equal the model's at x."""
     x = np.atleast_1d(x)
     lp = np.asarray(model.log_prior(x), dtype=float).reshape(-1)
-    ll = np.asarray(model.log_likelihood(x), dtype=float).reshape(-1)
+    ll = np.asarray(oracle_ll(model)(x), dtype=float).reshape(-1)
     okp = np.all((lp == x["logP"]) | (np.abs(lp - x["logP"]) <= tol * (1 + np.abs(lp))))
     okl = np.all((ll == x["logL"]) | (np.abs(ll - x["logL"]) <= tol * (1 + np.abs(ll))))
     return bool(okp), bool(okl), f"logP {x['logP']} vs {lp}; logL {x['logL']} vs {ll}"
